@@ -36,7 +36,10 @@ def time_limited(seconds, f, *args):
   """Runs f(*args) under a wall-clock budget (workers are single-threaded processes)."""
   import signal
   old = signal.signal(signal.SIGALRM, _alarm)
-  signal.setitimer(signal.ITIMER_REAL, seconds)
+  # repeating: the engine stores ANY exception raised while a formula runs as that cell's error
+  # (bare except), so a single time-out can be swallowed; it is raised again every second until
+  # the call returns
+  signal.setitimer(signal.ITIMER_REAL, seconds, 1.0)
   try:
     return f(*args)
   finally:
